@@ -8,6 +8,7 @@ sys.path.insert(0, os.path.join(core.VERIF, 'gen'))
 import enc_gen  # noqa: E402
 import dec_gen  # noqa: E402
 import obj_gen  # noqa: E402
+import st_gen  # noqa: E402
 import tlcdump  # noqa: E402
 import hashlib  # noqa: E402
 import json  # noqa: E402
@@ -131,6 +132,23 @@ OBJ_SWEEPS = {'kind': 'gen', 'name': 'sweeps', 'gen': obj_sweeps, 'comp': 'obj',
 OBJ_BUILDERS = {'kind': 'mc', 'name': 'builders', 'module': 'MC_Builders', 'comp': 'obj', 'trace': 'TraceObj',
                 'cfg': {'quick': 'MC_Builders_quick.cfg', 'thorough': 'MC_Builders_thorough.cfg'}, 'invariants': ['InvC13']}
 OBJ_BUILDS = {'kind': 'gen', 'name': 'randombuilds', 'gen': obj_builds, 'comp': 'obj', 'trace': 'TraceObj'}
+
+
+# ------------------------------------------------------------------ status
+def st_random(tier, seed, path):
+    return st_gen.write(path, st_gen.gen(seed + 23, 20 if tier == 'quick' else 200, 300 if tier == 'quick' else 2000))
+
+
+def nt_st(c):
+    ops = c.get('ops', [])
+    return any(o.get('op') in ('removeDev', 'removeIf', 'clear') for o in ops) and any(o.get('op') == 'update' for o in ops)
+
+
+ST_PROBE = {'probe': {'devs': [1, 2, 3, 4], 'ifs': [[0, 0, 0, 1], [0, 0, 0, 2], [0, 0, 0, 3]]}}
+ST_MC = {'kind': 'mc', 'tree': True, 'name': 'status', 'module': 'MC_Status', 'comp': 'st', 'trace': 'TraceStatus',
+         'cfg': {'quick': 'MC_Status_quick.cfg', 'thorough': 'MC_Status_thorough.cfg'}, 'extra': ST_PROBE,
+         'invariants': ['InvC16']}
+ST_RANDOM = {'kind': 'gen', 'name': 'randomstatus', 'gen': st_random, 'comp': 'st', 'trace': 'TraceStatus'}
 
 
 # ------------------------------------------------------------------ decoder
@@ -270,5 +288,14 @@ PROPS = {
                     'builders; plus seeded random builds on fresh objects and on objects holding other data and non-zero headers, '
                     'interleaved with header setters. Monitor C13 (raw = Render(header before, args), views give the arguments '
                     'back, own validity check and decoder accept). Non-trivial = distinct episodes that build on a used object.',
+            'assumptions': COMMON_ASSUMPTIONS},
+    'C16': {'level': 'model_checking', 'stages': [ST_MC, ST_RANDOM], 'nontrivial_case': nt_st,
+            'rule': 'MC_Status: the complete (finite, unbounded-depth) state graph of the tracker over Devs x Ifs x Tags with '
+                    'capture-module status, interface status (also for devices that never sent a capture-module status), data '
+                    'packets, removals and clear: the operational vector model refines the abstract latest-message map (InvC16); '
+                    'every transition replayed on the real Status object (tree replay with copies); plus seeded random histories '
+                    'of 300 (thorough 2000) operations over 14 device ids and 8 interface ids with full packets. Monitor: observed '
+                    'entries as a map = abstract map, no duplicate ids, lookups = position in the observed order or the count. '
+                    'Non-trivial = distinct episodes containing updates and removals.',
             'assumptions': COMMON_ASSUMPTIONS},
 }
